@@ -138,7 +138,18 @@ def generate(tier, seed, ctx):
                     continue   # translation law is checked on exactly representable shifts only
                 R.append("c19.%s %s" % (nm, lst(data)))
                 ctx["groups"][len(R) - 1] = (g, nm, var, c, s, n)
-        w = [1.0] * n if g % 2 == 0 else [rng.choice([0.5, 1.0, 2.0, 3.0]) for _ in range(n)]
+        if g % 2 == 0:
+            w = [1.0] * n
+        elif g % 4 == 1 and n >= 2:
+            # non-uniform weights normalised to mean one (their sum is exactly N): pairs (1-d, 1+d), dyadic d
+            w = []
+            while len(w) + 1 < n:
+                d_ = rng.choice([0.125, 0.25, 0.5, 0.75])
+                w += [1.0 - d_, 1.0 + d_]
+            if len(w) < n:
+                w.append(1.0)
+        else:
+            w = [rng.choice([0.5, 1.0, 2.0, 3.0]) for _ in range(n)]
         R.append("c19.wavg %d %s" % (n, " ".join(hx(v) + " " + hx(ww) for v, ww in zip(x, w))))
         ctx["groups"][len(R) - 1] = (g, "wavg", "eq" if g % 2 == 0 else "w", c, s, n)
         if g % 2 == 0:
